@@ -18,7 +18,8 @@ ASSUMPTIONS = ["freshness is read from the two private stale flags (harness-side
                "exceptions other than the 'references stale' SequenceException raised by an operation on ill-suited "
                "content (e.g. duration of an empty sequence) end that branch and are listed as outcome classes"]
 REQUIRED_FLAGS = ["mutator_on_stale_view", "overwrite_abs_while_abs_stale", "overwrite_rel_while_rel_stale",
-                  "iter_abandoned", "copy_taken", "wrap_transpose", "model_predicted", "differential_compared"]
+                  "iter_abandoned", "copy_taken", "wrap_transpose", "model_predicted", "differential_compared",
+                  "insertion_at_every_slot_of_a_long_sequence", "pause_of_tens_of_thousands_of_ticks"]
 
 NOTE = ("note_on", "note_off")
 
@@ -34,7 +35,20 @@ def _content(i, p):
                 (25, off(None, p + 4, 1))], 40
     if i == 2:
         return [(0, on(None, p + 10, 0, 77)), (2, ks(None, "G")), (4, on(None, p + 12, 0, 50)), (8, off(None, p + 12, 0))], None
-    return [(0, on(None, p + 1, 0, 64)), (3, on(None, p + 2, 1, 30)), (8, off(None, p + 2, 1)), (30, off(None, p + 1, 0))], 36
+    if i == 3:
+        return [(0, on(None, p + 1, 0, 64)), (3, on(None, p + 2, 1, 30)), (8, off(None, p + 2, 1)), (30, off(None, p + 1, 0))], 36
+    if i in (4, 5):
+        # scale: 24 / 70 notes (49 / 141 stored messages); a message is then inserted at EVERY slot (see enabled)
+        evs = []
+        for (o, l, pp, c, v) in lib.long_desc(24 if i == 4 else 70, p - 10, (0, 1), 8, lens=(3, 5, 7, 6)):
+            evs += [(o, 2, on(None, pp, c, v)), (o + l, 0, off(None, pp, c))]
+        evs.sort(key=lambda x: x[:2])
+        return [(t, m) for t, _, m in evs], max(t for t, _, _ in evs) + 9
+    # scale in time: pauses of 1537, 4097 and 70001 ticks, two events behind each of them
+    return [(0, on(None, p, 0, 64)), (7, off(None, p, 0)), (1544, on(None, p + 1, 0, 50)), (1544, ks(None, "D")),
+            (1550, off(None, p + 1, 0)), (5647, on(None, p + 2, 1, 51)), (5650, off(None, p + 2, 1)),
+            (75651, on(None, p + 3, 0, 52)), (75651, on(None, p + 5, 1, 53)), (75660, off(None, p + 3, 0)),
+            (75660, off(None, p + 5, 1))], 75700
 
 
 def make_seed(i, p):
@@ -236,8 +250,30 @@ OPS = {
 OPNAMES = list(OPS)
 
 
+def _ins(tick):
+    return (lambda s: s.add_absolute_message(lib.prog(tick, 5, 2)),
+            lambda ev, d: (ev + [(tick, "program_change", 2, None, None, None, None, None, 5)], max(d, tick)), "abs")
+
+
+def op_of(name):
+    """(fn, model, writes); 'ins_abs:<tick>' = one absolute message inserted at that tick"""
+    if name.startswith("ins_abs:"):
+        return _ins(int(name.split(":")[1]))
+    return OPS[name]
+
+
+def slot_ticks(seed_i, p):
+    """every tick at which some stored message of the long content sits, and every tick strictly between two of them"""
+    evs, dur = _content(seed_i // 3, p)
+    ts_ = sorted({t for t, _ in evs} | {dur})
+    return sorted(set(ts_) | {a + 1 for a, b in zip(ts_, ts_[1:]) if b - a >= 2})
+
+
+AFTER_INSERT = ["read_rel", "copy", "pad200", "normalise", "transpose+1", "add_abs_odd", "to_midi_track", "iter_rel_edit"]
+
+
 def apply_op(s, name):
-    fn = OPS[name][0]
+    fn = op_of(name)[0]
     if fn == "copy":
         return s.copy()
     fn(s)
@@ -261,12 +297,12 @@ def context(tier, seed):
     p = [60, 40, 90][seed % 3]
     depth = 3 if tier == "quick" else 4
     return {"p": p, "depth": depth, "tier": tier,
-            "bounds": {"depth": depth, "operations": OPNAMES, "seeds": "4 contents x {abs-only, rel-only, both}",
+            "bounds": {"depth": depth, "operations": OPNAMES, "seeds": "7 contents (4 small, 2 long with an insertion at every slot, 1 with pauses up to 70001 ticks) x {abs-only, rel-only, both}",
                        "pitch_base": p}}
 
 
 def seeds(ctx):
-    return 12
+    return 21
 
 
 def build(seed_i, hist, ctx):
@@ -281,6 +317,14 @@ def key_of(s, ctx):
 
 
 def enabled(state, seed_i, hist, ctx):
+    content = seed_i // 3
+    if content in (4, 5):
+        # the long contents: depth 1 = the whole alphabet + an insertion at every slot; depth 2 = a few readers / mutators
+        if not hist:
+            return OPNAMES + [f"ins_abs:{t}" for t in slot_ticks(seed_i, ctx["p"])]
+        return AFTER_INSERT if len(hist) == 1 and hist[0].startswith("ins_abs:") else []
+    if content == 6 and len(hist) >= 2:
+        return []
     return OPNAMES
 
 
@@ -340,7 +384,11 @@ def check_step(s, op, ctx):
         pre_abs, pre_rel = both_views(s)
     except Exception as e:  # noqa: BLE001
         return [("state_unreadable_before_op", f"{type(e).__name__}: {e}")], None, [f0, op, "unreadable"], facts
-    writes = OPS[op][2]
+    writes = op_of(op)[2]
+    if op.startswith("ins_abs:"):
+        facts.append("insertion_at_every_slot_of_a_long_sequence")
+    if any(e[0] > 70000 for e in pre_abs[0]):
+        facts.append("pause_of_tens_of_thousands_of_ticks")
     if (writes == "abs" and f0 == "R") or (writes == "rel" and f0 == "A"):
         facts.append("mutator_on_stale_view")
         if op == "ow_abs":
@@ -355,14 +403,14 @@ def check_step(s, op, ctx):
     try:
         s2 = apply_op(s, op)
     except MidIterationDivergence as e:
-        return [("views_disagree_during_iteration", f"{op} from {f0}: {e}")], None, [f0, op, "diverges"], facts
+        return [("views_disagree_during_iteration", f"{op} from {f0}: {e}")], None, [f0, op.split(":")[0], "diverges"], facts
     except Exception as e:  # noqa: BLE001
         msg = f"{type(e).__name__}: {e}"
         if "stale" in str(e).lower():
             viols.append(("operation_finds_sequence_unreadable", f"{op} from {f0}: {msg}"))
-        return viols, None, [f0, op, "raises:" + type(e).__name__], facts + ["raises:" + op + ":" + type(e).__name__]
+        return viols, None, [f0, op.split(":")[0], "raises:" + type(e).__name__], facts + ["raises:" + op.split(":")[0] + ":" + type(e).__name__]
     f1 = fresh_of(s2)
-    info = [f0, op, f1]
+    info = [f0, op.split(":")[0], f1]
     if f1 == "broken":
         viols.append(("both_views_stale_after_operation", f"{op} from {f0}"))
     # (1) readable
@@ -375,7 +423,7 @@ def check_step(s, op, ctx):
     if post_abs != post_rel:
         viols.append(("views_disagree", f"after {op} from {f0}: abs {post_abs} rel {post_rel}"))
     # (3a) list model
-    model = OPS[op][1]
+    model = op_of(op)[1]
     if model is not None and pre_abs == pre_rel:
         facts.append("model_predicted")
         ev, d = pre_abs
